@@ -107,10 +107,14 @@ def bug_switch_check(name, module, cfg, switch, expect, timeout=300):
     """Anti-vacuity: with a named deviation switched on TLC must find a counterexample."""
     path = f"{SPEC}/{cfg}"
     txt = open(path).read()
-    assert f"{switch} = FALSE" in txt, switch
+    old, new = "FALSE", "TRUE"
+    if switch.endswith("=FALSE"):
+        switch = switch[:-6]
+        old, new = "TRUE", "FALSE"
+    assert f"{switch} = {old}" in txt, switch
     tmp = f"{OUT}/tlc/{name}.cfg"
     os.makedirs(os.path.dirname(tmp), exist_ok=True)
-    open(tmp, "w").write(txt.replace(f"{switch} = FALSE", f"{switch} = TRUE"))
+    open(tmp, "w").write(txt.replace(f"{switch} = {old}", f"{switch} = {new}"))
     rc, out, wall = tlc(name, module, tmp, workers=8, timeout=timeout)
     m = re.search(r"(Invariant (\w+) is violated|Action property (\w+) is violated|"
                   r"Temporal properties were violated|Temporal property (\w+) was violated|"
@@ -229,7 +233,10 @@ def match_known(prop, v, known):
     for k in known.get("findings", []):
         if k["property"] != prop:
             continue
-        m = k.get("match", {})
+        m = dict(k.get("match", {}))
+        names = m.pop("check_in", None)
+        if names is not None and v.get("check") not in names:
+            continue
         if all(v.get(key) == val for key, val in m.items()):
             return k
     return None
@@ -327,6 +334,14 @@ PROPS = {
               dict(driver="hist", args=["--nops", "70", "--per-file", "6", "--descriptors",
                                         "--compact-bias", "1", "--profile", "fill"],
                    quick=24, thorough=600)]),
+    "C15": dict(
+        design=[("MC_RainCorrupt.tla", ["MC_RainCorrupt.cfg"], ["MC_RainCorrupt.cfg"])],
+        switches=[("Bug_NoBlockCrc", "MC_RainCorrupt.tla", "MC_RainCorrupt.cfg", "NoInvention"),
+                  ("Bug_ManifestSkipsDamaged", "MC_RainCorrupt.tla", "MC_RainCorrupt.cfg", None),
+                  ("Bug_SpliceFragments", "MC_RainCorrupt.tla", "MC_RainCorrupt.cfg", None),
+                  ("ExcludeTailHeader=FALSE", "MC_RainCorrupt.tla", "MC_RainCorrupt.cfg", None)],
+        work=[dict(driver="corrupt", args=["--nops", "25", "--threads", "2", "--max-probes", "1500"],
+                   quick=6, thorough=60)]),
     "C16": dict(
         design=[(DUR, ["MC_RainDur_small.cfg"], ["MC_RainDur_small.cfg", "MC_RainDur_big.cfg"])],
         switches=[("Bug_ReuseAfterTornTail", DUR, "MC_RainDur_small.cfg", None)],
@@ -337,7 +352,7 @@ PROPS = {
 }
 
 PROP_SEED_BASE = {"C01": 1000, "C03": 3000, "C07": 7000, "C10": 10000, "C11": 11000,
-                  "C02": 2000, "C16": 16000, "C08": 8000, "C05": 5000, "C06": 6000, "C09": 9000}
+                  "C02": 2000, "C16": 16000, "C08": 8000, "C05": 5000, "C06": 6000, "C09": 9000, "C15": 15000}
 
 
 def check_prop(prop, tier, seed):
@@ -385,6 +400,12 @@ def check_prop(prop, tier, seed):
         if w["driver"] == "crash":
             for k in ("journal_ops", "probes", "torn_probes", "gen2_probes"):
                 extra["crash_" + k] = extra.get("crash_" + k, 0) + sum(x["crash"][k] for x in r)
+        if w["driver"] == "corrupt":
+            extra["corruption_probes"] = extra.get("corruption_probes", 0) + sum(x["corrupt"]["probes"] for x in r)
+            extra["corrupted_file_bytes"] = extra.get("corrupted_file_bytes", 0) + sum(x["corrupt"]["file_bytes"] for x in r)
+            for x in r:
+                for kk, vv in x["corrupt"]["by_kind"].items():
+                    extra["corruption_probes_" + kk] = extra.get("corruption_probes_" + kk, 0) + vv
         if w["driver"] == "sched":
             extra["forced_schedules"] = extra.get("forced_schedules", 0) + len(r)
             extra["schedules_where_victim_parked"] = extra.get("schedules_where_victim_parked", 0) + sum(1 for x in r if x.get("parked"))
@@ -551,6 +572,7 @@ def replay(path):
     spec = {"hist": ("RainCore_Trace.tla", "RainCore_Trace.cfg"),
             "crash": ("RainCore_Trace.tla", "RainCore_Trace.cfg"),
             "fault": ("RainCore_Trace.tla", "RainCore_Trace.cfg"),
+            "corrupt": ("RainCore_Trace.tla", "RainCore_Trace.cfg"),
             "sched": CONC_TRACE, "live": CONC_TRACE}[rp["driver"]]
     vruns, rejects, _ = validate_traces(files, spec[0], spec[1], 2, "replay")
     for vr in vruns:
